@@ -250,7 +250,8 @@ add(
     "own-or-IRF width; Gaussian shape amplitude / half maximum / symmetry / formula; skewed Gaussian formula, theta <= 0 "
     "mask, |b| <= 1e-8 dispatch; inverted / scaled spectral axes; the Gaussian-IRF damped oscillation in all regions "
     "(complex error function as a pair of uninterpreted functions): columns = Re / Im of the closed form, both rate "
-    "signs, 1-2 Gaussians, per-index shift; coherent artifact with dispersed centre and width.",
+    "signs, 1-2 Gaussians, per-index shift; PFID columns (minus the anti-causal closed form at detuning nu_i - f, scaled / "
+    "inverted axis); coherent artifact with dispersed centre and width.",
     COMMON_NOTE + "NOT decided: oscillation / PFID columns inside the pulse region (complex error function), 'proportional to "
     "the convolution' as an analytic fact, continuity as skewness -> 0, floating point ranges.",
     "3/C07",
